@@ -102,6 +102,12 @@ var kinds = []kindT{
 	{"ptriface", func() interface{} { return ptrIface }},
 	{"ptrmap", func() interface{} { return ptrMap }},
 	{"ptrslice", func() interface{} { return ptrSlice }},
+	// an unnamed struct type: its name is its whole declaration, field tags (and whatever characters they hold) included
+	{"tagstruct", func() interface{} {
+		return struct {
+			Share float64 `json:"share" unit:"%"`
+		}{Share: 1}
+	}},
 }
 
 func kindIndex(name string) int {
